@@ -329,4 +329,323 @@ Proof.
   rewrite (ptype_eqb_false _ _ A), (ptype_eqb_false _ _ B). reflexivity.
 Qed.
 
+(* ================================================================== c17_synack_ok *)
+Definition syn_due (s : vsock) : bool :=
+  match v_state s with
+  | SynReceived => true
+  | SynAckSent _ => timer_expired (v_t_syn_ack_resend s) (v_env_now s)
+  | _ => false
+  end.
+Definition syn_k0 (s : vsock) : Z := match v_state s with SynAckSent k => k | _ => 0 end.
+Definition syn_hs (s : vsock) : bool := match v_state s with SynReceived | SynAckSent _ => true | _ => false end.
+
+(* nothing to do for maybe_send_syn_ack: past the handshake, or the resend timer has not expired *)
+Definition notdue (t : vsock) : Prop :=
+  match v_state t with
+  | SynReceived => False
+  | SynAckSent _ => timer_expired (v_t_syn_ack_resend t) (v_env_now t) = false
+  | _ => True
+  end.
+
+Lemma body_notdue (t : vsock) : notdue t -> bframe t (poll_body cci t).
+Proof.
+  intro Hn. rewrite poll_body_decomp.
+  destruct (maybe_send_syn_ack_spec (body_start t) eq_refl) as (S1 & S2 & _).
+  unfold notdue in Hn.
+  assert (Hm : exists s1, maybe_send_syn_ack (body_start t) = SOk s1 tt /\ pframe t s1 /\
+                          v_restart s1 = false /\ v_transport_pending s1 = false).
+  { change (v_state (body_start t)) with (v_state t) in S1, S2.
+    change (v_now (body_start t)) with (v_env_now t) in S2.
+    change (v_t_syn_ack_resend (body_start t)) with (v_t_syn_ack_resend t) in S2.
+    destruct (v_state t) eqn:Es; try contradiction.
+    - exists (body_start t). split; [apply S2; [reflexivity|exact Hn]|].
+      split; [apply body_start_frame|split; reflexivity].
+    - eexists. split; [apply S1; reflexivity|]. split; [|split; reflexivity].
+      split; [apply body_start_frame|]. unfold syn_rel, body_start. vsimpl. rewrite Es. exact I.
+    - eexists. split; [apply S1; reflexivity|]. split; [|split; reflexivity].
+      split; [apply body_start_frame|]. unfold syn_rel, body_start. vsimpl. rewrite Es. exact I.
+    - eexists. split; [apply S1; reflexivity|]. split; [|split; reflexivity].
+      split; [apply body_start_frame|]. unfold syn_rel, body_start. vsimpl. rewrite Es. exact I.
+    - eexists. split; [apply S1; reflexivity|]. split; [|split; reflexivity].
+      split; [apply body_start_frame|]. unfold syn_rel, body_start. vsimpl. rewrite Es. exact I.
+    - eexists. split; [apply S1; reflexivity|]. split; [|split; reflexivity].
+      split; [apply body_start_frame|]. unfold syn_rel, body_start. vsimpl. rewrite Es. exact I. }
+  destruct Hm as (s1 & -> & F1 & R1 & T1). unfold pend, bail. rewrite R1, T1.
+  apply body_rest_frame. exact F1.
+Qed.
+
+Lemma notdue_pframe (t t' : vsock) : notdue t -> pframe t t' -> notdue t'.
+Proof.
+  unfold notdue. intros Hn ((_ & _ & _ & He & _) & Hr). unfold syn_rel in Hr.
+  destruct (v_state t'); auto.
+  - rewrite Hr in Hn. exact Hn.
+  - destruct Hr as (Hr1 & Hr2). rewrite Hr1 in Hn. rewrite Hr2, He. exact Hn.
+Qed.
+
+Lemma poll_loop_notdue : forall fuel t, notdue t -> pframe t (fst (poll_loop cci fuel t)).
+Proof.
+  induction fuel as [|fuel IH]; intros t Hn; cbn [poll_loop fst]; [apply pframe_refl|].
+  pose proof (body_notdue t Hn) as B. destruct (poll_body cci t) as [s' r|s'|]; cbn [bframe fst] in *.
+  - exact B.
+  - eapply pframe_trans; [exact B|]. apply IH. eapply notdue_pframe; eauto.
+  - apply pframe_refl.
+Qed.
+
+Definition syn_kept (s s' : vsock) : Prop :=
+  v_state s' = v_state s /\ v_t_syn_ack_resend s' = v_t_syn_ack_resend s.
+
+Definition syn_sent (s s' : vsock) : Prop :=
+  (exists l p, v_out s' = l ++ [p] /\ ch_type (p_hdr p) = ST_STATE /\ ch_seq (p_hdr p) = v_seq_nr s /\
+               ch_ack (p_hdr p) = v_last_consumed s /\ p_payload p = []) /\
+  match v_state s' with
+  | SynReceived => False
+  | SynAckSent k => k = syn_k0 s + 1 /\ v_t_syn_ack_resend s' = Some (v_env_now s + SYNACK_RESEND_INTERNAL)
+  | _ => True
+  end.
+
+(* everything a poll can do about the SYN-ACK *)
+Definition SY (s s' : vsock) (r : poll_result) : Prop :=
+  v_env_now s' = v_env_now s /\
+  if syn_hs s then
+    if syn_due s then
+      if syn_k0 s =? o_max_retx (v_opts s)
+      then r = PollReadyErr ErrMaxSynAckRetransmissionsReached /\ syn_kept s s'
+      else syn_sent s s' \/ syn_kept s s'
+    else syn_rel s s'
+  else syn_hs s' = false.
+
+Lemma pframe_env (a b : vsock) : pframe a b -> v_env_now b = v_env_now a.
+Proof. intros ((_ & _ & _ & He & _) & _). exact He. Qed.
+
+Lemma jbd_kept (s : vsock) e :
+  syn_kept s (just_before_death s e) /\ v_env_now (just_before_death s e) = v_env_now s.
+Proof.
+  pose proof (jbd_spec s e) as J. cbv zeta in J. destruct J as (J1 & _ & _ & _ & _ & J6 & _).
+  split; [split; assumption|]. apply pframe_env. apply just_before_death_frame.
+Qed.
+
+Lemma poll_loop_SY fuel (s00 : vsock) :
+  v_out s00 = [] ->
+  SY s00 (fst (poll_loop cci (S fuel) s00)) (snd (poll_loop cci (S fuel) s00)).
+Proof.
+  intro Ho. unfold SY.
+  (* the cases where maybe_send_syn_ack has nothing to do: the strong frame holds for the whole poll *)
+  assert (Hnd : notdue s00 ->
+            v_env_now (fst (poll_loop cci (S fuel) s00)) = v_env_now s00 /\
+            syn_rel s00 (fst (poll_loop cci (S fuel) s00))).
+  { intro Hn. pose proof (poll_loop_notdue (S fuel) s00 Hn) as F. split; [apply pframe_env; exact F|apply F]. }
+  destruct (syn_hs s00) eqn:Ehs.
+  2:{ assert (Hn : notdue s00) by (unfold notdue, syn_hs in *; destruct (v_state s00); auto; discriminate).
+      destruct (Hnd Hn) as [A B]. split; [exact A|]. unfold syn_rel in B. unfold syn_hs in *.
+      destruct (v_state (fst (poll_loop cci (S fuel) s00))); auto.
+      - rewrite B in Ehs. discriminate.
+      - destruct B as [B _]. rewrite B in Ehs. discriminate. }
+  destruct (syn_due s00) eqn:Edue.
+  2:{ assert (Hn : notdue s00).
+      { unfold notdue, syn_hs, syn_due in *. destruct (v_state s00); auto; discriminate. }
+      destruct (Hnd Hn) as [A B]. split; assumption. }
+  clear Hnd.
+  cbn [poll_loop]. rewrite poll_body_decomp.
+  destruct (maybe_send_syn_ack_spec (body_start s00) eq_refl) as (_ & _ & S3 & S4).
+  change (v_state (body_start s00)) with (v_state s00) in S3, S4.
+  change (v_now (body_start s00)) with (v_env_now s00) in S3, S4.
+  change (v_t_syn_ack_resend (body_start s00)) with (v_t_syn_ack_resend s00) in S3, S4.
+  change (v_opts (body_start s00)) with (v_opts s00) in S3, S4.
+  change (v_seq_nr (body_start s00)) with (v_seq_nr s00) in S4.
+  change (v_last_consumed (body_start s00)) with (v_last_consumed s00) in S4.
+  fold (syn_k0 s00) in S3, S4.
+  assert (Hhs : match v_state s00 with SynReceived | SynAckSent _ => true | _ => false end = true) by exact Ehs.
+  assert (Hdue : match v_state s00 with SynReceived => true
+                 | SynAckSent _ => timer_expired (v_t_syn_ack_resend s00) (v_env_now s00) | _ => false end = true)
+    by exact Edue.
+  specialize (S3 Hhs Hdue). specialize (S4 Hhs Hdue).
+  destruct (Z.eqb_spec (syn_k0 s00) (o_max_retx (v_opts s00))) as [Hk|Hk].
+  - (* exhausted *)
+    rewrite (S3 Hk). unfold pend, bail, die. cbn [fst snd].
+    destruct (jbd_kept (body_start s00) (Some ErrMaxSynAckRetransmissionsReached)) as [K1 K2].
+    split; [exact K2|]. split; [reflexivity|exact K1].
+  - destruct (S4 Hk) as [(s1 & p & h & Hs & -> & P1 & P2 & P3 & P4)|[(s1 & Hs & ->)|(s1 & Hs & ->)]].
+    + (* the SYN-ACK went out *)
+      set (sA := set_t_syn_ack_resend (set_state (on_packet_sent (emit s1 p) h) (SynAckSent (syn_k0 s00 + 1)))
+                   (Some (v_env_now s00 + SYNACK_RESEND_INTERNAL))).
+      assert (FA : v_restart sA = false /\ v_transport_pending sA = false /\ v_out sA = [p] /\
+                   v_env_now sA = v_env_now s00 /\ v_state sA = SynAckSent (syn_k0 s00 + 1) /\
+                   v_t_syn_ack_resend sA = Some (v_env_now s00 + SYNACK_RESEND_INTERNAL)).
+      { unfold sA, on_packet_sent, emit. destruct Hs as [->|[q ->]]; unfold body_start; vsimpl; rewrite Ho; repeat split. }
+      destruct FA as (A1 & A2 & A3 & A4 & A5 & A6).
+      unfold pend, bail. rewrite A1, A2.
+      pose proof (body_rest_frame cci sA sA (pframe_refl sA)) as B.
+      (* whatever follows is a pframe-successor of sA *)
+      assert (Hfin : forall s' : vsock, pframe sA s' ->
+                v_env_now s' = v_env_now s00 /\ (syn_sent s00 s' \/ syn_kept s00 s')).
+      { intros s' F. split; [rewrite (pframe_env _ _ F); exact A4|]. left.
+        destruct F as ((_ & _ & _ & _ & _ & _ & (l & Fo) & _) & Fr). split.
+        - exists l, p. rewrite Fo, A3. repeat split; assumption.
+        - unfold syn_rel in Fr. destruct (v_state s'); auto.
+          + rewrite A5 in Fr. discriminate.
+          + destruct Fr as [Fr1 Fr2]. rewrite A5 in Fr1. injection Fr1 as <-. split; [reflexivity|congruence]. }
+      destruct (body_rest cci sA tt) as [s' r|s''|]; cbn [bframe fst snd] in *.
+      * apply Hfin. exact B.
+      * apply Hfin. eapply pframe_trans; [exact B|]. apply poll_loop_notdue.
+        destruct B as ((_ & _ & _ & Be & _) & Br). unfold notdue. unfold syn_rel in Br.
+        destruct (v_state s''); auto.
+        -- rewrite A5 in Br. discriminate.
+        -- destruct Br as [_ Br]. rewrite Br, A6, Be, A4. unfold timer_expired, SYNACK_RESEND_INTERNAL. lia.
+      * split; [reflexivity|]. right. split; reflexivity.
+    + (* the transport refused it *)
+      unfold pend, bail. cbn [fst snd].
+      assert (FA : v_restart (set_transport_pending s1 true) = false /\
+                   v_state s1 = v_state s00 /\ v_t_syn_ack_resend s1 = v_t_syn_ack_resend s00 /\
+                   v_env_now s1 = v_env_now s00).
+      { destruct Hs as [->|[q ->]]; unfold body_start; vsimpl; repeat split. }
+      destruct FA as (A1 & A2 & A3 & A4). rewrite A1.
+      change (v_transport_pending (set_transport_pending s1 true)) with true. cbn [fst snd].
+      split; [exact A4|]. right. split; assumption.
+    + (* transport error *)
+      unfold pend, bail, die. cbn [fst snd].
+      assert (FA : v_state s1 = v_state s00 /\ v_t_syn_ack_resend s1 = v_t_syn_ack_resend s00 /\
+                   v_env_now s1 = v_env_now s00).
+      { destruct Hs as [->|[q ->]]; unfold body_start; vsimpl; repeat split. }
+      destruct FA as (A2 & A3 & A4).
+      destruct (jbd_kept s1 (Some ErrSend)) as [[K1 K1'] K2].
+      split; [congruence|]. right. split; congruence.
+Qed.
+
+Lemma poll_SY (s s' : vsock) sc r : poll cci (VSockRec.set_sends s sc) = (s', r) -> SY s s' r.
+Proof.
+  intro E. rewrite poll_unfold in E.
+  pose proof (poll_loop_SY 63 (poll_init (VSockRec.set_sends s sc)) eq_refl) as H.
+  change (S 63) with 64%nat in H. rewrite E in H. exact H.
+Qed.
+
+(* the precondition: the options are those of the configuration, the limit is not negative, and a
+   SYN-ACK counter is within 1..limit.  Invariant of every trace from vsock_new (see below). *)
+Definition syn_pre (cfg : vconfig) (s : vsock) : Prop :=
+  o_max_retx (v_opts s) = vc_max_retx cfg /\ 0 <= vc_max_retx cfg /\
+  forall k, v_state s = SynAckSent k -> 1 <= k <= vc_max_retx cfg.
+
+Lemma optz_eqb_refl a : optz_eqb a a = true.
+Proof. destruct a; cbn [optz_eqb]; [apply Z.eqb_refl|reflexivity]. Qed.
+
+(* the predicate, as a function of the few values it looks at *)
+Definition synack_check (maxr : Z) (st0 : vstate) (t0 : option Z) (now : Z) (st1 : vstate) (t1 : option Z)
+  (r : poll_result) (first_ok : bool) : bool :=
+  let handshaking := match st0 with SynReceived | SynAckSent _ => true | _ => false end in
+  let due := match st0 with
+             | SynReceived => true
+             | SynAckSent _ => timer_expired t0 now
+             | _ => false
+             end in
+  let k0 := match st0 with SynAckSent k => k | _ => 0 end in
+  let sent := match st1 with
+              | SynReceived => false
+              | SynAckSent k' => negb (k' =? k0)
+              | _ => due
+              end in
+  if handshaking then
+    (if sent then first_ok else true) &&
+    (if sent then due else true) &&
+    (match st1 with
+     | SynAckSent k' =>
+         (if sent then (k' =? k0 + 1) && optz_eqb t1 (Some (now + SYNACK_RESEND_INTERNAL))
+          else (k' =? k0) && optz_eqb t1 t0) &&
+         (1 <=? k') && (k' <=? maxr)
+     | SynReceived => match st0 with SynReceived => true | _ => false end
+     | _ => true
+     end) &&
+    (if due && (k0 =? maxr) then
+       match r with PollReadyErr e => verror_is_max_synack e | _ => false end
+     else true)
+  else
+    match st1 with SynReceived | SynAckSent _ => false | _ => true end.
+
+Lemma c17_synack_ok_check cfg st :
+  c17_synack_ok cfg st =
+  match fs_event st, fs_result st with
+  | FePoll _, FrPoll r pkts _ _ =>
+      synack_check (vc_max_retx cfg) (f_state (fs_pre st)) (f_t_syn_ack_resend (fs_pre st)) (fs_now st)
+        (f_state (fs_post st)) (f_t_syn_ack_resend (fs_post st)) r
+        (match pkts with p :: _ => synack_shape (fs_pre st) p | [] => false end)
+  | _, _ => true
+  end.
+Proof. reflexivity. Qed.
+
+Ltac zb := repeat match goal with
+  | |- context [?a =? ?b] => destruct (Z.eqb_spec a b); try lia
+  | |- context [?a <=? ?b] => destruct (Z.leb_spec a b); try lia
+  end; cbn [andb negb orb]; try reflexivity.
+
+Lemma synack_check_ok maxr st0 t0 now st1 t1 r first_ok :
+  0 <= maxr -> (forall k, st0 = SynAckSent k -> 1 <= k <= maxr) ->
+  (let hs := match st0 with SynReceived | SynAckSent _ => true | _ => false end in
+   let due := match st0 with SynReceived => true | SynAckSent _ => timer_expired t0 now | _ => false end in
+   let k0 := match st0 with SynAckSent k => k | _ => 0 end in
+   if hs then
+     if due then
+       if k0 =? maxr
+       then r = PollReadyErr ErrMaxSynAckRetransmissionsReached /\ st1 = st0 /\ t1 = t0
+       else (first_ok = true /\
+             match st1 with
+             | SynReceived => False
+             | SynAckSent k => k = k0 + 1 /\ t1 = Some (now + SYNACK_RESEND_INTERNAL)
+             | _ => True
+             end) \/ (st1 = st0 /\ t1 = t0)
+     else match st1 with
+          | SynAckSent k => st0 = SynAckSent k /\ t1 = t0
+          | SynReceived => st0 = SynReceived
+          | _ => True
+          end
+   else match st1 with SynReceived | SynAckSent _ => False | _ => True end) ->
+  synack_check maxr st0 t0 now st1 t1 r first_ok = true.
+Proof.
+  intros H0 Hk H. cbv zeta in H. unfold synack_check.
+  destruct st0 as [|k0| | | | |]; cbv beta iota zeta.
+  - (* SynReceived *)
+    destruct (Z.eqb_spec 0 maxr) as [Hm|Hm].
+    + destruct H as (-> & -> & ->). cbn [andb verror_is_max_synack]. reflexivity.
+    + destruct H as [(-> & H)|(-> & ->)]; [|cbn [andb]; reflexivity].
+      destruct st1 as [|k1| | | | |]; try contradiction; cbn [andb]; try reflexivity.
+      destruct H as [-> ->]. rewrite optz_eqb_refl. zb.
+  - (* SynAckSent k0 *)
+    specialize (Hk k0 eq_refl).
+    destruct (timer_expired t0 now) eqn:Edue.
+    + destruct (Z.eqb_spec k0 maxr) as [Hm|Hm].
+      * destruct H as (-> & -> & ->). rewrite optz_eqb_refl. zb.
+      * destruct H as [(-> & H)|(-> & ->)]; [|rewrite optz_eqb_refl; zb].
+        destruct st1 as [|k1| | | | |]; try contradiction; cbn [andb]; try reflexivity.
+        destruct H as [-> ->]. rewrite optz_eqb_refl. zb.
+    + destruct st1 as [|k1| | | | |]; try discriminate; cbn [andb]; try reflexivity.
+      destruct H as [H ->]. injection H as <-. rewrite optz_eqb_refl. zb.
+  - destruct st1; try contradiction; reflexivity.
+  - destruct st1; try contradiction; reflexivity.
+  - destruct st1; try contradiction; reflexivity.
+  - destruct st1; try contradiction; reflexivity.
+  - destruct st1; try contradiction; reflexivity.
+Qed.
+
+Theorem c17_synack_ok_step : forall cfg (s : vsock) o,
+  syn_pre cfg s -> c17_synack_ok cfg (fstep_of cci s o) = true.
+Proof.
+  intros cfg s o (Pm & P0 & Pk). rewrite c17_synack_ok_check. destruct o;
+    try (rewrite fstep_of_event; reflexivity).
+  destruct (poll cci (VSockRec.set_sends s script)) as [s' r] eqn:E.
+  rewrite (fstep_of_poll cci s script s' r E).
+  cbn [fs_event fs_result fs_pre fs_post fs_now fp_of_vsock f_state f_t_syn_ack_resend].
+  apply poll_SY in E. destruct E as (En & E). rewrite En.
+  apply synack_check_ok; [exact P0|exact Pk|]. cbv zeta.
+  unfold syn_hs, syn_due in E. fold (syn_k0 s). rewrite <- Pm.
+  destruct (match v_state s with SynReceived | SynAckSent _ => true | _ => false end) eqn:Ehs.
+  2:{ unfold syn_hs in E. destruct (v_state s'); try discriminate; exact I. }
+  destruct (match v_state s with SynReceived => true
+            | SynAckSent _ => timer_expired (v_t_syn_ack_resend s) (v_env_now s) | _ => false end) eqn:Edue.
+  2:{ exact E. }
+  destruct (syn_k0 s =? o_max_retx (v_opts s)).
+  - destruct E as (E1 & E2 & E3). auto.
+  - destruct E as [((l & p & Eo & Q1 & Q2 & Q3 & Q4) & E)|(E1 & E2)]; [left|right; split; assumption].
+    split; [|exact E].
+    rewrite Eo, rev_app_distr. cbn [rev app map].
+    unfold synack_shape, pkt_is, pkt_seq, pkt_ack, fpacket_of. cbn [fq_hdr fq_plen fp_of_vsock f_seq_nr f_last_consumed].
+    rewrite Q1, Q2, Q3, Q4. cbn [length Z.of_nat]. rewrite !Z.eqb_refl. reflexivity.
+Qed.
+
 End WithCC.
